@@ -7,6 +7,7 @@ import Driver.CnipDrv
 import Driver.PositionsDrv
 import Driver.TreeDrv
 import Driver.ProtocolDrv
+import Driver.ClimbDrv
 /-! `psymodel <component>`: reads one case per line on stdin, answers one line per case. -/
 
 partial def loop (h : IO.FS.Stream) (out : IO.FS.Stream) (f : String → String) : IO Unit := do
@@ -28,4 +29,5 @@ def main (args : List String) : IO UInt32 := do
   | ["positions"] => loop stdin stdout Driver.PositionsDrv.handle; return 0
   | ["tree"] => loop stdin stdout Driver.TreeDrv.handle; return 0
   | ["protocol"] => loop stdin stdout Driver.ProtocolDrv.handle; return 0
+  | ["climb"] => loop stdin stdout Driver.ClimbDrv.handle; return 0
   | _ => IO.eprintln "usage: psymodel <component>"; return 2
